@@ -440,3 +440,50 @@ func clipS(s string, n int) string {
 	}
 	return s
 }
+
+// WSpec describes a wrapper for differential runs (C11).
+type WSpec struct {
+	Name   string
+	Ret    string   // "text", "textlist", "zahl", "bool"
+	Params []string // "ascii" (Zahl 1..127), "bool", "zahl02" (0..2), "zahl", "char"
+}
+
+func Specs() (string, []WSpec) {
+	x := &ctx{}
+	var out []WSpec
+	for _, t := range templates {
+		for _, n := range x.sizesFor(t) {
+			w := WSpec{Name: wrapperName(t, n)}
+			switch {
+			case t.name == "c05_setref" || t.ret == "einen Text":
+				w.Ret = "text"
+			case t.ret == "eine Text Liste":
+				w.Ret = "textlist"
+			case t.ret == "einen Wahrheitswert":
+				w.Ret = "bool"
+			default:
+				w.Ret = "zahl"
+			}
+			for _, p := range t.params {
+				switch p.Type {
+				case "Text", "Text Referenz", "Text Liste":
+					for k := 0; k < n; k++ {
+						w.Params = append(w.Params, "ascii")
+					}
+				case W:
+					w.Params = append(w.Params, "bool")
+				case "Zahl":
+					if t.name == "c05_while" || t.name == "c05_forto" {
+						w.Params = append(w.Params, "zahl02")
+					} else {
+						w.Params = append(w.Params, "zahl")
+					}
+				case "Buchstabe":
+					w.Params = append(w.Params, "char")
+				}
+			}
+			out = append(out, w)
+		}
+	}
+	return x.source(), out
+}
